@@ -185,7 +185,10 @@ def gen_literal(r):
             coef_txt, coef, feat = ('', Fraction(1), 'bare-register') if r.random() < 0.4 else gen_decimal_text(r)
             reg = r.choice([20, 15, 10])
             v = sign * coef * reg
-            return {'kind': 'dimen', 'text': signs + coef_txt + '\\parindent ', 'tail': r.choice(['', 'x', '\\relax ']), 'value': [v.numerator, v.denominator],
+            gap = r.choice(['', '', ' ', '  ']) if coef_txt else ''        # optional spaces may stand between the factor and the register
+            if gap:
+                feat += '/space-before-register'
+            return {'kind': 'dimen', 'text': signs + coef_txt + gap + '\\parindent ', 'tail': r.choice(['', 'x', '\\relax ']), 'value': [v.numerator, v.denominator],
                     'reg': reg, 'feat': 'register-multiple/' + feat}
         text, val, feat = gen_dimen(r)
         while tail[:1] == 'l' or tail.lstrip()[:2] in ('pt',) and False:
